@@ -1,2 +1,149 @@
-//! Harnesses that need private items of core/src/deserializer.rs (child module, cfg(kani) only).
-#![allow(dead_code, unused_imports, missing_debug_implementations, unreachable_pub, unnameable_types)]
+//! C01-d / C07 (unit `depth`): the nesting counter, for EVERY parent depth (symbolic). Child module
+//! of core/src/deserializer.rs (private `depth` fields and `new_without_value_kind` constructors).
+//!
+//! The shape harnesses start the walkers from concrete boundary depths only (a symbolic depth in
+//! front of a walk defeats CBMC's constant propagation, DESIGN.md 8.1). Here nothing is walked:
+//! each nesting step is executed once with a symbolic parent depth and a *probe child* that only
+//! records the depth it is created with. Lemma per step: the child is created with depth
+//! `parent + 1`, or the step fails with `TooDeeplyNested` iff `parent + 1 > 32`.
+#![allow(dead_code, unused_imports, missing_debug_implementations, unreachable_pub, unnameable_types, static_mut_refs)]
+#![cfg(any(verif_unit = "all", verif_unit = "depth"))]
+
+use super::*;
+
+static mut SEEN: u8 = 0xff;
+
+struct DepthProbe;
+
+impl Deserialize<tags::Unit> for DepthProbe {
+    fn deserialize(d: Deserializer) -> Result<Self, DeserializeError> {
+        unsafe { SEEN = d.depth };
+        Ok(DepthProbe)
+    }
+}
+
+fn seen() -> u8 {
+    unsafe { SEEN }
+}
+
+/// depth held by a live deserializer unit: 1..=32
+fn any_parent_depth() -> u8 {
+    let d: u8 = kani::any();
+    kani::assume(d >= 1 && d <= 32);
+    d
+}
+
+fn expect_child<T>(r: Result<T, DeserializeError>, parent: u8) {
+    match r {
+        Ok(_) => assert!(parent < 32 && seen() == parent + 1, "child is created exactly one level deeper"),
+        Err(e) => assert!(parent == 32 && e == DeserializeError::TooDeeplyNested, "only nesting beyond 32 fails, with the nesting error"),
+    }
+}
+
+pub(crate) fn unknown_fields_new() -> crate::UnknownFields {
+    let rs = unsafe { std::mem::transmute::<(u64, u64), std::collections::hash_map::RandomState>((0, 0)) };
+    crate::UnknownFields(std::collections::HashMap::with_hasher(rs))
+}
+
+#[kani::proof]
+#[kani::unwind(4)]
+fn q_c01_c07_depth_constructor() {
+    let d: u8 = kani::any();
+    kani::assume(d <= 32);
+    let arr = [0u8];
+    let mut rd: &[u8] = &arr;
+    match Deserializer::new(&mut rd, d) {
+        Ok(de) => assert!(d <= 31 && de.depth == d + 1),
+        Err(e) => assert!(d == 32 && e == DeserializeError::TooDeeplyNested),
+    }
+}
+
+#[kani::proof]
+#[kani::unwind(4)]
+fn q_c01_c07_depth_some_and_option() {
+    let d = any_parent_depth();
+    let arr = [ValueKind::Some as u8];
+    let mut rd: &[u8] = &arr;
+    let de = Deserializer { buf: &mut rd, depth: d };
+    expect_child(de.deserialize_some::<tags::Unit, DepthProbe>(), d);
+    let mut rd: &[u8] = &arr;
+    let de = Deserializer { buf: &mut rd, depth: d };
+    expect_child(de.deserialize_option::<tags::Unit, DepthProbe>(), d);
+}
+
+#[kani::proof]
+#[kani::unwind(4)]
+fn q_c01_c07_depth_vec() {
+    let d = any_parent_depth();
+    let a1 = [1u8];
+    let mut rd: &[u8] = &a1;
+    match Vec1Deserializer::new_without_value_kind(&mut rd, d) {
+        Ok(mut v) => expect_child(v.deserialize::<tags::Unit, DepthProbe>(), d),
+        Err(_) => panic!("header"),
+    }
+    let a2 = [ValueKind::Some as u8];
+    let mut rd: &[u8] = &a2;
+    match Vec2Deserializer::new_without_value_kind(&mut rd, d) {
+        Ok(mut v) => expect_child(v.deserialize::<tags::Unit, DepthProbe>(), d),
+        Err(_) => panic!("header"),
+    }
+}
+
+#[kani::proof]
+#[kani::unwind(4)]
+fn q_c01_c07_depth_map() {
+    let d = any_parent_depth();
+    let k: u8 = kani::any();
+    let a1 = [1u8, k];
+    let mut rd: &[u8] = &a1;
+    match Map1Deserializer::<tags::U8>::new_without_value_kind(&mut rd, d) {
+        Ok(mut m) => expect_child(m.deserialize_element::<u8, tags::Unit, DepthProbe>(), d),
+        Err(_) => panic!("header"),
+    }
+    let a2 = [ValueKind::Some as u8, k];
+    let mut rd: &[u8] = &a2;
+    match Map2Deserializer::<tags::U8>::new_without_value_kind(&mut rd, d) {
+        Ok(mut m) => expect_child(m.deserialize_element::<u8, tags::Unit, DepthProbe>(), d),
+        Err(_) => panic!("header"),
+    }
+}
+
+#[kani::proof]
+#[kani::unwind(4)]
+#[kani::stub(crate::UnknownFields::new, unknown_fields_new)]
+fn q_c01_c07_depth_struct() {
+    let d = any_parent_depth();
+    let a1 = [1u8, 3];
+    let mut rd: &[u8] = &a1;
+    match Struct1Deserializer::new_without_value_kind(&mut rd, d) {
+        Ok(mut s) => match s.deserialize() {
+            Ok(Some(f)) => expect_child(f.deserialize::<tags::Unit, DepthProbe>(), d),
+            _ => panic!("field"),
+        },
+        Err(_) => panic!("header"),
+    }
+    let a2 = [ValueKind::Some as u8, 3];
+    let mut rd: &[u8] = &a2;
+    match Struct2Deserializer::new_without_value_kind(&mut rd, d) {
+        Ok(mut s) => match s.deserialize() {
+            Ok(Some(f)) => expect_child(f.deserialize::<tags::Unit, DepthProbe>(), d),
+            _ => panic!("field"),
+        },
+        Err(_) => panic!("header"),
+    }
+}
+
+#[kani::proof]
+#[kani::unwind(4)]
+fn q_c01_c07_depth_enum() {
+    let d = any_parent_depth();
+    let a = [7u8];
+    let mut rd: &[u8] = &a;
+    match EnumDeserializer::new_without_value_kind(&mut rd, d) {
+        Ok(e) => expect_child(e.deserialize::<tags::Unit, DepthProbe>(), d),
+        Err(_) => panic!("header"),
+    }
+}
+
+#[cfg(verif_replay)]
+include!("/verif/.cache/replay/deserializer__verif.rs");
